@@ -378,6 +378,19 @@ def teardown_rules(o, g, prog):
         n = count.get(p['name'], 0)
         if n != 1:
           bad.append(('teardown', 'teardown phase of an entered group ran %d times' % n))
+  # nodes nested in a teardown node (a Subtest, a sequence, a branch, an inner group): every phase below an
+  # entered group's teardown is invoked as often as in the model ("This also applies to all nested phase nodes")
+  mcount = {}
+  for c_ in o.get('calls', []):
+    if c_['att'] == 1:
+      mcount[c_['n']] = mcount.get(c_['n'], 0) + 1
+  for gname in o.get('entered', []):
+    for p in groups[gname]['tdn']:
+      if p['k'] != 'phase':
+        for q in progs.all_nodes(p):
+          if q['k'] == 'phase' and count.get(q['name'], 0) != mcount.get(q['name'], 0):
+            bad.append(('teardown', 'a phase nested in a teardown node of an entered group ran %d times, model says %d'
+                        % (count.get(q['name'], 0), mcount.get(q['name'], 0))))
   for gname in o.get('notent', []):
     for part in ('main', 'tdn'):
       for p in groups[gname][part]:
